@@ -339,7 +339,168 @@ func runC06(s *kernel.Sim, _ string) {
 				return
 			}
 		}
+		// ---- overlap: the attacker's traffic interleaved with victims' ----
+		// All datagrams are queued at the server before it reads the first
+		// one, and the stream connections have their messages in flight at
+		// the same time, so that receive buffers are taken and released
+		// while other messages are still being processed.
+		c06Overlap(tk, n, hist, raw, vip, aip)
 	})
 	r.wait()
 	s.MarkNontrivial()
+}
+
+// c06Own checks that every frame received by a client answers one of its own
+// messages: ids maps a request ID to the lower-case question name sent with
+// it.
+func c06Own(tk *task, who, tr string, frames [][]byte, ids map[uint16]string, foreign string) {
+	for _, f := range frames {
+		m := &dns.Msg{}
+		if err := m.Unpack(f); err != nil {
+			tk.Failf("C06/overlap-undecodable", tr+": undecodable response under overlapping traffic", "% x", f)
+
+			return
+		}
+		txt := strings.ToLower(m.String())
+		if strings.Contains(txt, foreign) {
+			tk.Failf("C06/overlap-leak", tr+": a client received a response made from another client's message",
+				"%s got: %s", who, strings.ReplaceAll(m.String(), "\n", " | "))
+
+			return
+		}
+		name, ok := ids[m.Id]
+		if !ok {
+			tk.Failf("C06/overlap-leak", tr+": a client received a response with an ID it never sent",
+				"%s got id %d: %s", who, m.Id, strings.ReplaceAll(m.String(), "\n", " | "))
+
+			return
+		}
+		if len(m.Question) == 1 && strings.ToLower(m.Question[0].Name) != name {
+			tk.Failf("C06/overlap-leak", tr+": response pairs one message's ID with another message's question",
+				"%s id %d sent %s got %s", who, m.Id, name, m.Question[0].Name)
+
+			return
+		}
+	}
+}
+
+func c06Overlap(tk *task, n *simnet.Net, hist [][]byte, probe []byte, vip, aip netip.Addr) {
+	vids := map[uint16]string{}
+	for i := range hist {
+		vids[uint16(3000+i)] = fmt.Sprintf("tok-%d.victim.test.", i)
+	}
+	am := &dns.Msg{}
+	am.SetQuestion("whole.attacker.test.", dns.TypeA)
+	am.Id = 4243
+	whole, _ := am.Pack()
+	aids := map[uint16]string{4242: "probe.attacker.test.", 4243: "whole.attacker.test."}
+
+	// UDP: one burst from two sockets.
+	vpc, err := n.DialPacket(n.ClientAddr(vip))
+	if err != nil {
+		panic(err)
+	}
+	defer vpc.Close()
+	apc, err := n.DialPacket(n.ClientAddr(aip))
+	if err != nil {
+		panic(err)
+	}
+	defer apc.Close()
+	srv := net.UDPAddrFromAddrPort(netip.MustParseAddrPort(addrDNS))
+	for i, q := range hist {
+		if len(q) <= 512 {
+			_, _ = vpc.WriteTo(q, srv)
+		}
+		switch i % 3 {
+		case 0:
+			_, _ = apc.WriteTo(whole, srv)
+		case 1:
+			_, _ = apc.WriteTo(probe, srv)
+		}
+	}
+	collect := func(pc *simnet.PacketConn) (frames [][]byte) {
+		buf := make([]byte, 65535)
+		for {
+			_ = pc.SetReadDeadline(time.Now().Add(2 * time.Second))
+			k, _, rerr := pc.ReadFrom(buf)
+			if rerr != nil {
+				return frames
+			}
+			frames = append(frames, append([]byte(nil), buf[:k]...))
+		}
+	}
+	vf, af := collect(vpc), collect(apc)
+	tk.Logf("overlap udp: victim got %d, attacker got %d datagrams", len(vf), len(af))
+	c06Own(tk, "victim", "udp", vf, vids, "attacker")
+	if tk.Failed() {
+		return
+	}
+	c06Own(tk, "attacker", "udp", af, aids, "victim")
+	if tk.Failed() {
+		return
+	}
+	nv := 0
+	for _, q := range hist {
+		if len(q) <= 512 {
+			nv++
+		}
+	}
+	if len(vf) != nv {
+		tk.Failf("C06/overlap-count", "udp: victim's burst did not get one response per query", "sent %d got %d", nv, len(vf))
+
+		return
+	}
+
+	// Streams: two connections with their messages in flight together.
+	for _, st := range []struct {
+		tr, addr string
+		tc       *tls.Config
+	}{{"tcp", addrDNS, nil}, {"dot", addrDoT, clientTLS("dns.sim.test")}} {
+		open := func(ip netip.Addr) (c net.Conn) {
+			rc, derr := n.Dial(st.addr, n.ClientAddr(ip))
+			if derr != nil {
+				panic(derr)
+			}
+			c = rc
+			if st.tc != nil {
+				tc := tls.Client(rc, st.tc)
+				_ = tc.SetDeadline(time.Now().Add(5 * time.Second))
+				if herr := tc.Handshake(); herr != nil {
+					panic(herr)
+				}
+				_ = tc.SetDeadline(time.Time{})
+				c = tc
+			}
+
+			return c
+		}
+		vc, ac := open(vip), open(aip)
+		for i, q := range hist {
+			_, _ = vc.Write(withPrefix(q))
+			if i%2 == 0 {
+				_, _ = ac.Write(withPrefix(whole))
+			}
+		}
+		// The probe last: it may end the attacker's connection.
+		_, _ = ac.Write(withPrefix(probe))
+		vfr, _ := readFrames(vc, 2*time.Second)
+		afr, _ := readFrames(ac, 2*time.Second)
+		_ = vc.Close()
+		_ = ac.Close()
+		tk.Logf("overlap %s: victim got %d, attacker got %d frames", st.tr, len(vfr), len(afr))
+		c06Own(tk, "victim", st.tr, vfr, vids, "attacker")
+		if tk.Failed() {
+			return
+		}
+		c06Own(tk, "attacker", st.tr, afr, aids, "victim")
+		if tk.Failed() {
+			return
+		}
+		if len(vfr) != len(hist) {
+			tk.Failf("C06/overlap-count", st.tr+": victim's pipelined queries did not get one response each", "sent %d got %d", len(hist), len(vfr))
+
+			return
+		}
+	}
+	tk.Probe("overlap-phase")
 }
